@@ -487,6 +487,140 @@ func stalledCase(rng *rand.Rand, seed int64) *wire.Case {
 	return c
 }
 
+// ---- a long run of foreign fileblocks (index / vendor blocks): if the reader gets INTO the run
+// (the decoder under test stops at the first one with an error; a tolerant reader would skip them)
+// another goroutine cancels the context when the second block of the run starts; at most one
+// further block read may start after that.
+func foreignRunCase(rng *rand.Rand) *wire.Case {
+	procs := 1 + rng.Intn(4)
+	f := &pipesup.File{Header: true}
+	nData := 1 + rng.Intn(4)
+	run := 25 + rng.Intn(30)
+	for b := 0; b < nData; b++ {
+		f.Items = append(f.Items, pipesup.Item{Kind: pipesup.KBlock, N: 1 + rng.Intn(3)})
+	}
+	for b := 0; b < run; b++ {
+		f.Items = append(f.Items, pipesup.Item{Kind: pipesup.KForeign})
+	}
+	for b := 0; b < 3; b++ {
+		f.Items = append(f.Items, pipesup.Item{Kind: pipesup.KBlock, N: 2})
+	}
+	f.Build()
+	ctx, cancel := context.WithCancel(context.Background())
+	defer cancel()
+	rd := pipesup.NewReader(f)
+	var sc *osmpbf.Scanner
+	var rac int64
+	var fired int32
+	trigger := 1 + nData + 1 // file block index (header = 0) of the second foreign block
+	rd.OnStart = func(idx int, eof bool) {
+		if sc.VerifPipelineCancelled() {
+			atomic.AddInt64(&rac, 1)
+		}
+		if idx == trigger && atomic.CompareAndSwapInt32(&fired, 0, 1) {
+			done := make(chan struct{})
+			go func() { cancel(); close(done) }()
+			<-done
+		}
+	}
+	sc = osmpbf.New(ctx, rd, procs)
+	type res struct {
+		ids []int64
+		err int64
+	}
+	ch := make(chan res, 1)
+	go func() {
+		var r res
+		for sc.Scan() {
+			r.ids = append(r.ids, pipesup.ObjID(sc.Object()))
+		}
+		r.err = pipesup.ErrCode(sc.Err())
+		sc.Close()
+		ch <- r
+	}()
+	var r res
+	hung := false
+	select {
+	case r = <-ch:
+	case <-time.After(8 * time.Second):
+		hung = true
+	}
+	leaked := 0
+	if !hung {
+		leaked = pipesup.WaitNoPipeline(3 * time.Second)
+	}
+	c := &wire.Case{Class: "foreign-run"}
+	c.Int(5).Int(int64(procs)).Bool(false)
+	itemsToks(c, f)
+	c.Ints(r.ids).Int(r.err).Bool(hung).Int(atomic.LoadInt64(&rac)).Int(int64(leaked))
+	if hung {
+		c.OracleFail = "Scan/Close did not return within 8 s"
+	}
+	c.Desc = map[string]interface{}{"procs": procs, "data_blocks": nData, "foreign_blocks_in_run": run, "cancel_from_other_goroutine_at_start_of_file_block": trigger,
+		"cancel_fired": atomic.LoadInt32(&fired) == 1, "delivered": r.ids, "err": r.err, "block_reads_started_after_cancel": atomic.LoadInt64(&rac),
+		"goroutines_left": leaked, "bytes_pulled": atomic.LoadInt64(&rd.Pulled), "file_bytes": len(f.Bytes)}
+	return c
+}
+
+// ---- Close while a Read on the caller's reader is in progress (slow source): when Close has
+// returned, nothing the scanner started may still be reading: no Read call begins or ends later.
+type slowReader struct {
+	r       *pipesup.Reader
+	delay   time.Duration
+	inRead  int32
+	calls   int64
+	closedC int64 // value of calls when Close returned (set by the harness)
+}
+
+func (s *slowReader) Read(p []byte) (int, error) {
+	atomic.AddInt32(&s.inRead, 1)
+	defer atomic.AddInt32(&s.inRead, -1)
+	atomic.AddInt64(&s.calls, 1)
+	time.Sleep(s.delay)
+	if len(p) > 40 {
+		p = p[:40]
+	}
+	return s.r.Read(p)
+}
+
+func slowCloseCase(rng *rand.Rand) *wire.Case {
+	procs := 1 + rng.Intn(6)
+	f := pipesup.GenFile(rng, 3*procs+6, false)
+	stop := rng.Intn(3) // 0 Close, 1 cancel then Close, 2 Close from the start
+	k := rng.Intn(4)
+	if stop == 2 {
+		k = 0
+	}
+	ctx, cancel := context.WithCancel(context.Background())
+	defer cancel()
+	sr := &slowReader{r: pipesup.NewReader(f), delay: time.Duration(100+rng.Intn(300)) * time.Microsecond}
+	sc := osmpbf.New(ctx, sr, procs)
+	var ids []int64
+	for i := 0; i < k && sc.Scan(); i++ {
+		ids = append(ids, pipesup.ObjID(sc.Object()))
+	}
+	if stop == 2 {
+		sc.Header()
+	}
+	if stop == 1 {
+		cancel()
+	}
+	sc.Close()
+	inReadAtReturn := atomic.LoadInt32(&sr.inRead)
+	callsAtReturn := atomic.LoadInt64(&sr.calls)
+	time.Sleep(15 * time.Millisecond)
+	later := atomic.LoadInt64(&sr.calls) - callsAtReturn
+	leaked := pipesup.WaitNoPipeline(2 * time.Second)
+	c := &wire.Case{Class: "slow-close"}
+	c.Int(6).Int(int64(procs)).Bool(!f.Header)
+	itemsToks(c, f)
+	c.Int(int64(stop)).Ints(ids).Int(int64(inReadAtReturn)).Int(later).Int(int64(leaked))
+	c.Desc = map[string]interface{}{"procs": procs, "header": f.Header, "items": f.Items, "reader": "sleeps " + sr.delay.String() + " per Read, 40 bytes per Read",
+		"scans_before_stop": k, "stop": []string{"Close", "cancel then Close", "Header then Close"}[stop], "delivered": ids,
+		"reads_in_progress_when_Close_returned": inReadAtReturn, "read_calls_begun_after_Close_returned": later, "goroutines_left": leaked}
+	return c
+}
+
 func corrupt(c *wire.Case, kind int) *wire.Case {
 	d := c.Clone()
 	d.Canary = 1
@@ -608,6 +742,20 @@ func main() {
 		if c.OracleFail != "" {
 			break
 		}
+	}
+	nFr, nSl := int(12*a.Scale), int(25*a.Scale)
+	if a.Tier == "thorough" {
+		nFr, nSl = nFr*10, nSl*10
+	}
+	for i := 0; i < nFr; i++ {
+		c := foreignRunCase(rng)
+		w.Add(c)
+		if c.OracleFail != "" {
+			break
+		}
+	}
+	for i := 0; i < nSl; i++ {
+		w.Add(slowCloseCase(rng))
 	}
 	nXc := int(30 * a.Scale)
 	if a.Tier == "thorough" {
